@@ -51,8 +51,12 @@ class PairingRoles:
         self.tangent_step = g(["&mut " + G2T], TRIPLE)
         self.chord_step = g(["&mut " + G2T, "&" + G2T], TRIPLE)
         self.twist_frob = g(["&" + G2T], G2T)
+        # the same helpers merged into one that hands back several images at once: (&G2) -> (G2, G2, …)
+        multi_outs = [("(%s)" % ",".join([G2T.replace(" ", "")] * k)) for k in (2, 3)]
+        self.twist_frob_multi = [b for (i2, o2), bs in by.items() for b in bs if i2 == (G2T,) and (o2 or "").replace(" ", "") in multi_outs]
         self.twist_frob_by = g(["&" + G2T, "&" + FQ2], "core::option::Option<%s>" % G2T)
-        self.pow = g(["&" + FQ12, "u128"], FQ12)
+        # the machine-integer power function of Fq12, wherever the maintainer keeps it (pairing module or the field's own file)
+        self.pow = [b for b in F.fn_bodies() if b.rec.get("inputs") is not None and tuple(nrm(x) for x in b.rec["inputs"]) == (FQ12, "u128") and b.rec.get("output") == FQ12]
         # builds the sparse Fq12 line value from a stored coefficient triple (whole or destructured) and the G1 point's coordinates
         def strip_ref(t):
             return t.lstrip("&").replace("mut ", "").strip()
@@ -78,7 +82,7 @@ class PairingRoles:
         return p.startswith(self.mod + "::") or p.startswith("<" + self.mod + "::")
 
     def role_of(self, d):
-        for nm in ("tangent_eval", "chord_eval", "tangent_step", "chord_step", "twist_frob", "twist_frob_by", "pow", "sparse"):
+        for nm in ("tangent_eval", "chord_eval", "tangent_step", "chord_step", "twist_frob", "twist_frob_multi", "twist_frob_by", "pow", "sparse"):
             if any(b.rec["path"] == d for b in getattr(self, nm)):
                 return nm
         return None
